@@ -34,7 +34,7 @@ def wanted(name, prop):
     return prop in (m.group(1).replace(",", " ").split() if m else [])
 with open(res, "w") as f:
     f.write("# Sensitivity self-test results\n\nEach patch breaks a property on purpose in a scratch copy; the property's quick check must report it.\n"
-            "Rows show the last run of each (patch, property) pair: the full run of the morning of 2026-09-27, or a later targeted run\n"
+            "Rows show the last run of each (patch, property) pair: the full runs of 2026-09-27 (morning; afternoon for every hand-written mutant and reverted fix), or a later targeted run\n"
             "(`selftest/sensitivity.py --only ...`) after the check or the patch changed. PATCH-FAILED / MISSED rows of the full run that were\n"
             "re-run afterwards are replaced by the later verdict.\n\n")
     f.write("| mutant | property | verdict | seconds | violation classes reported | from |\n|---|---|---|---|---|---|\n")
